@@ -75,6 +75,18 @@ func (w *walker) condRules() {
 							exitIdx = i
 						}
 					}
+					if exitIdx < 0 && len(b.Succs) == 2 {
+						// a test in the middle of a compound predicate (a && (b || c)):
+						// neither edge leaves the loop at once. The staying edge is the one
+						// from which the loop cannot be left without waiting again.
+						e0 := leavesWithoutWaiting(b.Succs[0], wb, inLoop)
+						e1 := leavesWithoutWaiting(b.Succs[1], wb, inLoop)
+						if e0 && !e1 {
+							exitIdx = 0
+						} else if e1 && !e0 {
+							exitIdx = 1
+						}
+					}
 					if exitIdx < 0 {
 						continue
 					}
@@ -294,4 +306,27 @@ func wakeFollows(b *ssa.BasicBlock, idx int, broadcastOnly bool) bool {
 		return true
 	}
 	return visit(b, idx)
+}
+
+// leavesWithoutWaiting: from block from, a block outside the loop can be reached
+// without passing through the block of the wait.
+func leavesWithoutWaiting(from, wait *ssa.BasicBlock, inLoop map[*ssa.BasicBlock]bool) bool {
+	seen := map[*ssa.BasicBlock]bool{}
+	var rec func(b *ssa.BasicBlock) bool
+	rec = func(b *ssa.BasicBlock) bool {
+		if !inLoop[b] {
+			return true
+		}
+		if b == wait || seen[b] {
+			return false
+		}
+		seen[b] = true
+		for _, s := range b.Succs {
+			if rec(s) {
+				return true
+			}
+		}
+		return false
+	}
+	return rec(from)
 }
